@@ -3,7 +3,7 @@
 (* The bounded graph family on which TLC checks the design of Shake.tla,    *)
 (* and the constant definitions of its configurations.                      *)
 (***************************************************************************)
-EXTENDS Shake
+EXTENDS Shake, Json
 
 -----------------------------------------------------------------------------
 (* The bounded graph family checked by TLC.  Files 1..N, file 1 is the      *)
@@ -12,44 +12,66 @@ EXTENDS Shake
 (* exports "x" if ownX) and a statement part that may use "x" or the        *)
 (* imported bindings.  (effect, removable) ranges over Cells.               *)
 
-CONSTANTS N, EdgeKinds, Cells, DeclCells, Back, AnnotateSets, Owns, UseKinds
+CONSTANTS N, EdgeKinds, Cells, DeclCells, Back, AnnotateSets, Owns, UseKinds, DropKinds, CjsSets
+
+\* an edge kind = a statement-level component and / or a lazy component: the
+\* combined kinds (`export {x} from` / `export *` / `import {x}` of a file that
+\* is ALSO the target of import() or require(), hence lazily wrapped) are the
+\* ones where the importing statement carries an initialiser obligation
+StmtOf(k) == CASE k \in {"bare", "named", "reexp", "star"} -> k
+               [] k \in {"reexp_dynamic", "reexp_require"} -> "reexp"
+               [] k \in {"star_dynamic"} -> "star"
+               [] k \in {"named_require", "named_dynamic"} -> "named"
+               [] OTHER -> ""
+LazyOf(k) == CASE k \in {"require", "dynamic"} -> k
+               [] k \in {"reexp_dynamic", "star_dynamic", "named_dynamic"} -> "dynamic"
+               [] k \in {"reexp_require", "named_require"} -> "require"
+               [] OTHER -> ""
 
 ImpName(g) == <<"i1", "i2", "i3", "i4">>[g]
 Pairs == {<<f, g>> \in (1..N) \X (1..N) : f < g} \cup (IF Back /\ N > 2 THEN {<<N, 2>>} ELSE {})
 
-MkPart(d, u, c, recs) == [declares |-> d, uses |-> u, effect |-> c[1], removable |-> c[2], force |-> FALSE, recs |-> recs, probe |-> ""]
+MkPart(d, u, c, recs) == [declares |-> d, uses |-> u, effect |-> c[1], removable |-> c[2], force |-> FALSE, recs |-> recs, probe |-> "", entryExp |-> FALSE]
+\* the dummy part of an entry point (step 6): never removable, depends on all exports
+EntryExpPart == [MkPart({}, {}, <<FALSE, FALSE>>, {}) EXCEPT !.entryExp = TRUE]
 ImportCell == <<FALSE, TRUE>>     \* an import statement alone has no effect and is removable
 
 \* the import/re-export statements of file f, in target order (hoisted to the top)
-EdgeTargets(edge, f) == {g \in 1..N : <<f, g>> \in Pairs /\ edge[<<f, g>>] \in {"bare", "named", "reexp", "star"}}
+EdgeTargets(edge, f) == {g \in 1..N : <<f, g>> \in Pairs /\ StmtOf(edge[<<f, g>>]) # ""}
 RECURSIVE SeqOfSet(_)
 SeqOfSet(S) == IF S = {} THEN <<>> ELSE LET m == CHOOSE m \in S : \A k \in S : m <= k IN <<m>> \o SeqOfSet(S \ {m})
 
 FileParts(edge, f, own, c1, c2, u2) ==
   LET tg == SeqOfSet(EdgeTargets(edge, f))
       imps == [k \in 1..Len(tg) |-> MkPart({}, {}, ImportCell, {[kind |-> "stmt", to |-> tg[k]]})]
-      lazy == {[kind |-> edge[<<f, g>>], to |-> g] : g \in {h \in 1..N : <<f, h>> \in Pairs /\ edge[<<f, h>>] \in {"require", "dynamic"}}}
-      imported == {ImpName(g) : g \in {h \in 1..N : <<f, h>> \in Pairs /\ edge[<<f, h>>] = "named"}}
+      lazy == {[kind |-> LazyOf(edge[<<f, g>>]), to |-> g] : g \in {h \in 1..N : <<f, h>> \in Pairs /\ LazyOf(edge[<<f, h>>]) # ""}}
+      imported == {ImpName(g) : g \in {h \in 1..N : <<f, h>> \in Pairs /\ StmtOf(edge[<<f, h>>]) = "named"}}
       uses == CASE u2 = "none" -> {} [] u2 = "own" -> (IF own THEN {"x"} ELSE {}) [] OTHER -> imported
   IN imps \o << MkPart(IF own THEN {"x"} ELSE {}, {}, c1, {}),
                 MkPart({}, uses, IF lazy # {} /\ c2[2] THEN <<c2[1], FALSE>> ELSE c2, lazy) >>
+          \o (IF f = 1 THEN << EntryExpPart >> ELSE << >>)
 
-FileImp(edge, f) == {[local |-> ImpName(g), from |-> g, name |-> "x"] : g \in {h \in 1..N : <<f, h>> \in Pairs /\ edge[<<f, h>>] = "named"}}
+FileImp(edge, f) == {[local |-> ImpName(g), from |-> g, name |-> "x"] : g \in {h \in 1..N : <<f, h>> \in Pairs /\ StmtOf(edge[<<f, h>>]) = "named"}}
 FileExp(edge, f, own) ==
   LET tg == SeqOfSet(EdgeTargets(edge, f))
       idx(g) == CHOOSE k \in 1..Len(tg) : tg[k] = g
+      named == {h \in 1..N : <<f, h>> \in Pairs /\ StmtOf(edge[<<f, h>>]) = "named"}
   IN (IF own THEN {[kind |-> "local", name |-> "x", local |-> "x", from |-> 0, fromName |-> "", part |-> 0]} ELSE {})
+     \* the entry point exports what it imports by name: import {x as i2} from; export {i2 as x}
+     \cup (IF f = 1 /\ ~own /\ named # {}
+          THEN {[kind |-> "local", name |-> "x", local |-> ImpName(CHOOSE g \in named : \A h \in named : g <= h), from |-> 0, fromName |-> "", part |-> 0]}
+          ELSE {})
      \cup {[kind |-> "from", name |-> "x", local |-> "", from |-> g, fromName |-> "x", part |-> idx(g)] :
-              g \in {h \in 1..N : <<f, h>> \in Pairs /\ edge[<<f, h>>] = "reexp" /\ ~own}}
+              g \in {h \in 1..N : <<f, h>> \in Pairs /\ StmtOf(edge[<<f, h>>]) = "reexp" /\ ~own}}
      \cup {[kind |-> "star", name |-> "", local |-> "", from |-> g, fromName |-> "", part |-> idx(g)] :
-              g \in {h \in 1..N : <<f, h>> \in Pairs /\ edge[<<f, h>>] = "star"}}
+              g \in {h \in 1..N : <<f, h>> \in Pairs /\ StmtOf(edge[<<f, h>>]) = "star"}}
 
-VARIABLES phase, edges, ch, G, DG, LV
-vars == <<phase, edges, ch, G, DG, LV>>
+VARIABLES phase, edges, ch, G, DG, LV, NEC
+vars == <<phase, edges, ch, G, DG, LV, NEC>>
 
-Empty == [files |-> {}, entry |-> {}, seFalse |-> {}, ts |-> TRUE, ignoreAnn |-> FALSE, part |-> <<>>, imp |-> <<>>, exp |-> <<>>]
+Empty == [files |-> {}, entry |-> {}, seFalse |-> {}, cjs |-> {}, ts |-> TRUE, ignoreAnn |-> FALSE, part |-> <<>>, imp |-> <<>>, exp |-> <<>>]
 
-Init == phase = 0 /\ edges = <<>> /\ ch = <<>> /\ G = Empty /\ DG = <<>> /\ LV = <<>>
+Init == phase = 0 /\ edges = <<>> /\ ch = <<>> /\ G = Empty /\ DG = <<>> /\ LV = <<>> /\ NEC = {}
 
 \* step 0: the import graph; steps 1..N: the statements of one file each;
 \* step N+1: annotations and flags (hierarchical so that simulation mode has
@@ -65,11 +87,11 @@ PickEdge ==
   /\ phase = 0
   /\ Len(edges) < NP
   /\ \E k \in EdgeKinds : edges' = Append(edges, k)
-  /\ UNCHANGED <<phase, ch, G, DG, LV>>
+  /\ UNCHANGED <<phase, ch, G, DG, LV, NEC>>
 EdgesDone ==
   /\ phase = 0
   /\ Len(edges) = NP
-  /\ phase' = 1 /\ UNCHANGED <<edges, ch, G, DG, LV>>
+  /\ phase' = 1 /\ UNCHANGED <<edges, ch, G, DG, LV, NEC>>
 EdgeFn == [pr \in Pairs |-> edges[CHOOSE k \in 1..NP : PairSeq[k] = pr]]
 
 FileChoice == [own : Owns, c1 : DeclCells, c2 : Cells, u2 : UseKinds]
@@ -77,22 +99,32 @@ FileChoice == [own : Owns, c1 : DeclCells, c2 : Cells, u2 : UseKinds]
 PickFile ==
   /\ phase \in 1..N
   /\ \E c \in FileChoice : ch' = Append(ch, c)
-  /\ phase' = phase + 1 /\ UNCHANGED <<edges, G, DG, LV>>
+  /\ phase' = phase + 1 /\ UNCHANGED <<edges, G, DG, LV, NEC>>
 
 PickFlags ==
   /\ phase = N + 1
-  /\ \E se \in AnnotateSets, ts \in BOOLEAN :
-       G' = [files |-> 1..N, entry |-> {1}, seFalse |-> se, ts |-> ts, ignoreAnn |-> FALSE,
+  /\ \E se \in AnnotateSets, ts \in BOOLEAN, cj \in CjsSets :
+       G' = [files |-> 1..N, entry |-> {1}, seFalse |-> se, cjs |-> cj, ts |-> ts, ignoreAnn |-> FALSE,
              part |-> [f \in 1..N |-> FileParts(EdgeFn, f, ch[f].own, ch[f].c1, ch[f].c2, ch[f].u2)],
              imp |-> [f \in 1..N |-> FileImp(EdgeFn, f)],
              exp |-> [f \in 1..N |-> FileExp(EdgeFn, f, ch[f].own)]]
-  /\ phase' = N + 2 /\ UNCHANGED <<edges, ch, DG, LV>>
+  /\ phase' = N + 2 /\ UNCHANGED <<edges, ch, DG, LV, NEC>>
+
+\* what the property needs of a liveness assignment (no design-only strictness)
+SemanticOK(g, l) ==
+  /\ (ClassifierSound(g) => EffectsKeptOn(g, l))
+  /\ NoDanglingUseOn(g, l)
+  /\ ExportsInitialisedOn(g, l)
+  /\ (ClassifierSound(g) => MustKeepParts(g) \subseteq l.parts)
 
 \* the linker's work, computed once per graph: the invariants below share it
 Compute ==
   /\ phase = N + 2
   /\ DG' = DepGraph(G)
   /\ LV' = Live(DG')
+  \* NECESSITY of every edge kind of step 6: the mutant that leaves kind k out
+  \* breaks a semantic invariant on this graph
+  /\ NEC' = {k \in DropKinds : ~SemanticOK(G, Live(DepGraphM(G, {k})))}
   /\ phase' = N + 3 /\ UNCHANGED <<edges, ch, G>>
 
 Next == PickEdge \/ EdgesDone \/ PickFile \/ PickFlags \/ Compute
@@ -106,6 +138,12 @@ InvEffectsKept == (Done /\ ClassifierSound(G)) => EffectsKeptOn(G, LV)
 \* Cells contains the unsound cell <<TRUE, TRUE>> (non-vacuity config)
 InvEffectsKeptUnconditional == Done => EffectsKeptOn(G, LV)
 InvNoDanglingUse == Done => NoDanglingUseOn(G, LV)
+InvPassStmtsLive == Done => (PassStmtsLiveOn(G, LV) /\ ExportPassStmtsLiveOn(G, LV))
+\* a live binding exported by the entry point is initialised
+InvExportsInitialised == Done => ExportsInitialisedOn(G, LV)
+\* necessity report (drop configuration): one CASE line per graph on which some mutant fails
+NecessityReport ==
+  Done => (NEC = {} \/ PrintT(<<"CASE", ToJson([rec |-> "nec", kinds |-> NEC, edges |-> edges, se |-> G.seFalse, cjs |-> G.cjs, ts |-> G.ts])>>))
 InvAnnotationMonotone == Done => (AnnotationMonotoneOn(DG, LV) /\ ModeMonotoneOn(DG, LV))
 \* what must be kept is kept by the real classifier whenever it is sound
 InvMustKeepLive == (Done /\ ClassifierSound(G)) => MustKeepParts(G) \subseteq LV.parts
@@ -113,9 +151,21 @@ InvMustKeepLive == (Done /\ ClassifierSound(G)) => MustKeepParts(G) \subseteq LV
 \* (effect, removable): a sound classifier never calls an effectful statement removable
 CellsSound == {<<FALSE, TRUE>>, <<TRUE, FALSE>>, <<FALSE, FALSE>>}
 CellsUnsound == CellsSound \cup {<<TRUE, TRUE>>}
-AllKinds == {"none", "bare", "named", "reexp", "star", "require", "dynamic"}
+AllKinds == {"none", "bare", "named", "reexp", "star", "require", "dynamic",
+             "reexp_dynamic", "reexp_require", "star_dynamic", "named_require", "named_dynamic"}
 StaticKinds == {"none", "bare", "named", "reexp"}
-QuickKinds == {"none", "bare", "named", "reexp", "dynamic"}
+QuickKinds == {"none", "bare", "named", "reexp", "dynamic", "reexp_dynamic", "named_require", "star_dynamic"}
+NoDrop == {}
+\* CommonJS files (wrapped in __commonJS, no static exports): none, or the last file
+CjsNone == {{}}
+CjsLast == {{}, {N}}
+\* the chain family of the 3-file necessity configuration
+ChainKinds == {"none", "reexp", "reexp_dynamic"}
+\* the kinds that make each edge kind of step 6 the only keeper in a 2-file graph (quick tier)
+DropQKinds == {"none", "named", "reexp", "dynamic", "reexp_dynamic"}
+PureOnly == {<<FALSE, TRUE>>}
+NoUses == {"none"}
+AllDrops == EdgeKindNames
 TinyKinds == {"none", "bare", "named"}
 AnnotNonEntry == SUBSET (2..N)
 AnnotNone == {{}}
